@@ -4,6 +4,7 @@ CONSTANTS Vals, MODE, DSETS, EMIT,
           MAXNZ     \* spectra with at most MAXNZ non-zero bins (every bin, pair, triple ... of bins is still covered)
 FG == <<2, 3, 5, 8>>          \* 0.10 0.15 0.25 0.40 Hz
 DS(k) == CASE k = 1 -> <<0, 90, 180, 270>> [] k = 2 -> <<30, 150, 270>> [] k = 3 -> <<180, 0, 270, 90>> [] k = 4 -> <<15, 45, 75>>
+           [] k = 5 -> <<90, 180, 270, 360>>      \* north labelled 360: labels are compared as they are, not modulo 360
 \* PTM4: celerity classes per frequency (decreasing with f) and wind-component classes per direction, incl. equality
 CSEQ == <<8, 5, 3, 2>>
 USET(n) == IF n = 3 THEN {<<8, 2, 0>>, <<5, 5, 1>>, <<3, 9, -4>>, <<0, 0, 0>>} ELSE {<<8, 2, 0, -3>>, <<5, 5, 1, 3>>, <<2, 9, -4, 8>>, <<1, 1, 1, 1>>}
